@@ -1061,7 +1061,25 @@ class Exec:
                 return obj.replace(*args)
             if attr == "join" and not is_sym(obj):
                 return obj.join(args[0])
+        if isinstance(obj, (set, frozenset, list, tuple, dict, str, int, float)) and _all_concrete(args) and _all_concrete(list(kwargs.values())) and _all_concrete([obj]):
+            return getattr(obj, attr)(*args, **kwargs)  # plain Python on concrete data
         raise Unsupported(f"method {type(obj).__name__}.{attr} at line {ln}")
+
+
+def _all_concrete(xs) -> bool:
+    for x in xs:
+        if isinstance(x, (str, int, float, bool, type(None))):
+            continue
+        if isinstance(x, (list, tuple, set, frozenset)):
+            if not _all_concrete(list(x)):
+                return False
+            continue
+        if isinstance(x, dict):
+            if not _all_concrete(list(x.keys())) or not _all_concrete(list(x.values())):
+                return False
+            continue
+        return False
+    return True
 
 
 class _Fork(Exception):
